@@ -76,7 +76,7 @@ Alphabet == {OpP(n) : n \in Names} \cup {OpV(c, n) : c \in VarCols, n \in Names}
             \cup {OpM("st", n) : n \in Names}
             \cup {OpS(c) : c \in {"intermediates", "stx"}} \cup {OpT} \cup {OpN} \cup {OpK(s) : s \in Streams}
             \cup {OpE(cl, n, t) : cl \in Classes, n \in Names \cup {""}, t \in Lifts}
-            \cup {OpG(t) : t \in Lifts \cap {"remat"}}
+            \cup {OpG(t) : t \in Lifts \cap {"remat", "jit"}}
             \cup {OpL(a) : a \in BOOLEAN}
 
 \* reduced alphabet for the separator-collision self-test (cfg: Alphabet <- AlphabetCollide)
@@ -91,7 +91,7 @@ InitStreamsOne == {{"params"}}
 AlphabetJit == {OpE("MA", "a", "jit"), OpE("MB", "b", "none"), OpE("MB", "", "jit"), OpK("drop"), OpL(FALSE), OpL(TRUE)}
 
 \* focused alphabet: auto-named children created inside and after a function-style lifted block on the running module
-AlphabetBlock == {OpG("remat"), OpE("MB", "", "none"), OpE("MB", "", "remat"), OpP("a"), OpL(FALSE)}
+AlphabetBlock == {OpG("remat"), OpG("jit"), OpE("MB", "", "none"), OpP("a"), OpL(FALSE)}
 
 (***************************************************************************)
 (* Scope helpers                                                           *)
@@ -269,10 +269,14 @@ DoE(cl, n, t) ==
 
 \* a function-style lifted call on the running module itself: same scope, same names, same auto-name cursors - afterwards the
 \* module continues where the block left off (children created inside have taken their names)
+\* under nn.jit the block's rng streams are forked at the call (one draw per stream in this scope), as for a jitted child
 DoG(t) ==
-  /\ stack' = Append(stack, [Top EXCEPT !.start = ip + 1, !.second = FALSE, !.lift = "block"])
-  /\ Obs([k |-> "block"]) /\ status' = "run"
-  /\ UNCHANGED <<vars, cols, rngcnt, draws>>
+  LET f0 == [Top EXCEPT !.start = ip + 1, !.second = FALSE]
+      f1 == IF t = "jit" THEN [EnterFrame(f0, "jit") EXCEPT !.lift = "block"] ELSE [f0 EXCEPT !.lift = "block"]
+  IN /\ stack' = Append(stack, f1)
+     /\ rngcnt' = IF t = "jit" THEN BumpAll(rngcnt, Path, cfg.streams) ELSE rngcnt
+     /\ Obs([k |-> "block"]) /\ status' = "run"
+     /\ UNCHANGED <<vars, cols, draws>>
 
 \* return from the current module call
 DoL(again) ==
